@@ -8,7 +8,7 @@ PROP = dict(
               "Pops.C14_quantile_cauchy", "Pops.C14_quantile_exponential", "Pops.C14_quantile_weibull",
               "Pops.C14_quantile_logistic", "Pops.C14_quantile_hyperbolic_secant",
               "Pops.C14_powerlaw_cdf_of_density", "Pops.C14_quantile_powerlaw_fails",
-              "Pops.C14_quantile_powerlaw_pareto_fails", "Pops.C14_no_window_example"],
+              "Pops.C14_quantile_powerlaw_pareto_fails", "Pops.C14_no_window_example", "Pops.C14_parameters_rejected"],
     commands=["det.*"],
     runs={
         "quick": [("h_det", "witness", 0, 6), ("h_det", "alloc", 0, 400), ("h_det", "factory", 0, 200), ("h_det", "quantile", 0, 600)],
